@@ -61,6 +61,17 @@ def ob_closure(a: int, b: int, c: int) -> bool:
     mark = w.mark()
     if ev == 'close_done':
         w.ev_conn_lost()
+    elif ev.startswith('late:'):
+        # the peer's bytes that were in flight when the operator stopped: whatever they are, nothing is answered
+        import struct
+        kind = ev[5:]
+        c_ = [x for x in w.reactor.connectors if x.state == 'connected'][-1]
+        data = {'bad-marker': b'\x00' * 16 + struct.pack('!HB', 19, 4),
+                'unknown-type': S.MARKER + struct.pack('!HB', 19, 99),
+                'open-wrong-as': S.rfc_open(4, 64999, 90, 0x0A000002, S.cap_as4(64999)),
+                'keepalive': S.KEEPALIVE, 'update': S.rfc_update_min(),
+                'notification': S.rfc_notification(6, 2)}[kind]
+        c_.protocol.dataReceived(data)
     elif ev.startswith('stale:'):
         # a timer callback that was already queued when stop was issued
         getattr(w.fsm, ev[6:])()
@@ -141,6 +152,8 @@ def obligations(tier, seed):
     out.append(ob('C13/start/IDLE-stopped-closing', 'ob_start', {'state': S.IDLE, 'auto': False, 'closing': True},
                   covers=['started']))
     out.append(ob('C13/closure/close_done', 'ob_closure', {'ev': 'close_done', 'closing': True}, covers=['closed']))
+    for kind in ('bad-marker', 'unknown-type', 'open-wrong-as', 'keepalive', 'update', 'notification'):
+        out.append(ob('C13/closure/late-data/%s' % kind, 'ob_closure', {'ev': 'late:' + kind, 'closing': True}, covers=['closed']))
     for cb in ('connect_retry_time_event', 'hold_time_event', 'keep_alive_time_event', 'idle_hold_time_event',
                'delay_open_time_event'):
         for closing in (False, True):
